@@ -128,6 +128,35 @@ def set_attrs():
         'Definition set_attrs : list string := %s.\n' % cstrs(sorted(names))
 
 
+def marshal_attrs(api):
+    """per generator: every attribute name of every marshalling class and external-type model (what a template may read after .<generator>.)"""
+    rows = []
+    for t in api.generation_targets.values():
+        for gi in t.generator_instances:
+            names = set()
+            classes = list(getattr(gi, 'marshal_models', {}).values())
+            ext = getattr(gi, 'external_type_model', None)
+            if ext is not None:
+                classes.append(ext)
+            seen = set()
+            while classes:
+                c = classes.pop()
+                if c in seen or not isinstance(c, type):
+                    continue
+                seen.add(c)
+                for n in dir(c):
+                    if not n.startswith('_'):
+                        names.add(n)
+                for n in getattr(c, 'model_fields', {}):
+                    names.add(n)
+                for v_ in vars(c).values():          # nested marshalling classes (JniInterface.JniMethod, ...)
+                    if isinstance(v_, type):
+                        classes.append(v_)
+            rows.append('(%s, %s)' % (cstr(gi.key), cstrs(sorted(names))))
+    return HEADER + '(* generator key -> attribute names of its marshalling classes (reflected with dir()) *)\n' \
+        'Definition marshal_attrs : list (string * list string) :=\n  %s.\n' % clist(rows)
+
+
 def main(outdir):
     os.makedirs(outdir, exist_ok=True)
     from pydjinni import API
@@ -138,6 +167,7 @@ def main(outdir):
     write_if_changed(os.path.join(outdir, 'ExternalTypes.v'), external_attrs(api))
     write_if_changed(os.path.join(outdir, 'TypeDefReads.v'), typedef_reads())
     write_if_changed(os.path.join(outdir, 'SetAttrs.v'), set_attrs())
+    write_if_changed(os.path.join(outdir, 'MarshalAttrs.v'), marshal_attrs(api))
     print('tables ok')
 
 
@@ -146,7 +176,7 @@ if __name__ == '__main__':
         main(sys.argv[1])
     except Exception:
         # fail closed: remove outputs so everything that depends on them stops building
-        for f in ('TargetTable.v', 'ReturnCodes.v', 'Builtins.v', 'ExternalTypes.v', 'TypeDefReads.v', 'SetAttrs.v'):
+        for f in ('TargetTable.v', 'ReturnCodes.v', 'Builtins.v', 'ExternalTypes.v', 'TypeDefReads.v', 'SetAttrs.v', 'MarshalAttrs.v'):
             p = os.path.join(sys.argv[1], f)
             if os.path.exists(p):
                 os.unlink(p)
